@@ -34,6 +34,18 @@ def gen_case(seed, tier):
     settings = seqcache.gen_settings(rng, 'c04')
     n_ops = rng.choice((20, 40, 80)) if tier == 'quick' else rng.choice((30, 80, 200))
     prog = seqcache.gen_prog(rng, n_ops, 'expiry', settings['disk_min_file_size'])
+    if rng.random() < 0.3:
+        # many items sharing one expiry instant (more than one 100-row page), the clock moved past it, then a bulk removal
+        n = rng.choice((101, 130, 205, 250))
+        ttl = rng.choice((1, 5, 0, -1))
+        base = 500000
+        block = [{'op': 'set', 'k': base + j, 'v': j, 'expire': ttl} for j in range(n)]
+        if rng.random() < 0.5:
+            block += [{'op': 'set', 'k': base + n + j, 'v': j, 'expire': ttl + rng.choice((1, 100))} for j in range(rng.choice((3, 40)))]
+        block.append({'op': 'advance', 'dt': rng.choice((0, 1, 5.5, 6, 1000))})
+        block.append({'op': rng.choice(('expire', 'expire', 'cull', 'len'))})
+        at = rng.randrange(len(prog) + 1)
+        prog[at:at] = block
     nproc = rng.choice((1, 1, 2, 3))
     skews = [0.0] + [rng.choice((-30.0, -1.0, -1e-6, 0.5, 5.0, 3600.0)) for _ in range(nproc - 1)]
     if nproc > 1:
@@ -60,7 +72,7 @@ def run_case(case):
     digest = hashlib.sha256(json.dumps([case['cfg'], case['prog']], sort_keys=True).encode()).hexdigest()
     stats['probes']['expired_seen'] = seen['n']
     return {'violations': violations, 'digest': digest, 'steps': stats['ops'], 'switches': 0, 'fired': {},
-            'probes': stats['probes'], 'virtual_s': 0.0, 'nontrivial': seen['n'] > 0 or stats['ops'] >= 10,
+            'probes': stats['probes'], 'virtual_s': stats.get('virtual_s', 0.0), 'nontrivial': seen['n'] > 0 or stats['ops'] >= 10,
             'outcome': {'ops': stats['ops'], 'expired_removed': seen['n']}}
 
 
